@@ -103,6 +103,7 @@ type Cfg struct {
 	EnforceChunkMin bool   // refuse further data once a non-final chunk below ChunkMin was sent
 	AckPlan         []int  // i-th PATCH of a session: bytes of the chunk to accept (-1 / beyond = all)
 	AckStyle        string // "202" (default) or "416"
+	TagPageHole     int    // > 0: the k-th page of a paged tag listing is empty and only carries the Link to its content
 	MaxAccept       int    // > 0: at most this many bytes of any PATCH are accepted (reported like an AckPlan cut)
 	EmptyRange      string // Range value of a session that holds no bytes: "0-0" (default, distribution) or "0--1" (olareg)
 	Early201        bool   // answer the PATCH that completes nothing special with 201 instead of 202
@@ -131,13 +132,13 @@ type Host struct {
 	Intercept func(ev *Event, w http.ResponseWriter, r *http.Request) bool
 	// Early runs before the request body is read; a non-zero status is sent at once and the body
 	// is never read by the handler.
-	Early func(ev *Event) int
-	Auth      *AuthCfg
-	uploads   map[string]*upload
-	upSeq     int
-	inFlight  atomic.Int32
-	active    atomic.Int32
-	TLS       bool
+	Early    func(ev *Event) int
+	Auth     *AuthCfg
+	uploads  map[string]*upload
+	upSeq    int
+	inFlight atomic.Int32
+	active   atomic.Int32
+	TLS      bool
 	plainState
 	// MaxInFlight is the largest number of simultaneously running request handlers seen.
 	MaxInFlight atomic.Int32
@@ -649,6 +650,23 @@ func (h *Host) tags(ev *Event, r *http.Request) *response {
 	out, more, n := page(names, r, h.Cfg.TagPage)
 	resp := newResp(200)
 	resp.hdr.Set("Content-Type", "application/json")
+	if k := h.Cfg.TagPageHole; k > 0 && n > 0 && r.URL.Query().Get("skip") == "" {
+		// a registry that pages first and filters afterwards: the k-th page comes back empty, its Link
+		// leads to the names that page would have held
+		sort.Strings(names)
+		start := 0
+		if last := r.URL.Query().Get("last"); last != "" {
+			start = sort.SearchStrings(names, last)
+			if start < len(names) && names[start] == last {
+				start++
+			}
+		}
+		if start/n == k-1 && len(out) > 0 {
+			resp.hdr.Set("Link", fmt.Sprintf("</v2/%s/tags/list?n=%d&last=%s&skip=1>; rel=\"next\"", ev.Repo, n, url.QueryEscape(r.URL.Query().Get("last"))))
+			resp.body, _ = json.Marshal(map[string]any{"name": ev.Repo, "tags": []string{}})
+			return resp
+		}
+	}
 	if more {
 		resp.hdr.Set("Link", fmt.Sprintf("</v2/%s/tags/list?n=%d&last=%s>; rel=\"next\"", ev.Repo, n, url.QueryEscape(out[len(out)-1])))
 	}
